@@ -48,7 +48,7 @@ def pKnown : P (String → Option String → Bool) := do
   let names ← listOf tok
   pure fun n _ => names.contains n
 
-def optHex : Option Float → String
+def zmxOptHex : Option Float → String
   | some x => hexOf x
   | none => "-"
 
@@ -73,12 +73,12 @@ def showZSurf (s : ZSurf Float) : String :=
     | none => "air"
     | some (.nameOnly nm) => "name " ++ nm
     | some (.full nm a b _) => sp ["glas", nm, hexOf a, hexOf b]
-  sp [stypeCode s.stype, if s.isStop then "1" else "0", optHex (s.curv.map radiusOf),
-      optHex (s.thick.map thickOf), hexOf (s.conic.getD 0.0), mat, toString s.parms.length,
+  sp [stypeCode s.stype, if s.isStop then "1" else "0", zmxOptHex (s.curv.map radiusOf),
+      zmxOptHex (s.thick.map thickOf), hexOf (s.conic.getD 0.0), mat, toString s.parms.length,
       sp (s.parms.map fun p => toString p.1 ++ " " ++ hexOf p.2)]
 
 def showData (d : ZData Float) : String :=
-  sp ["ap", toString d.ap.length, sp (d.ap.map fun e => apKeyName e.1 ++ " " ++ optHex e.2),
+  sp ["ap", toString d.ap.length, sp (d.ap.map fun e => apKeyName e.1 ++ " " ++ zmxOptHex e.2),
       "gcat", (match d.gcat with | none => "-" | some g => sp (toString g.length :: g)),
       "ft", optNat d.ftype, (match d.tele with | none => "-" | some b => if b then "1" else "0"),
       optNat d.nf, optNat d.nw,
